@@ -510,12 +510,62 @@ class Model:
         return default
 
     # -- constant folding -----------------------------------------------------
-    def eval_const(self, scope, expr, _depth=0):
+    def eval_const(self, scope, expr, _depth=0, _locals=None):
         if _depth > 20:
             return Unknown('depth')
-        ev = lambda e: self.eval_const(scope, e, _depth + 1)
+        ev = lambda e: self.eval_const(scope, e, _depth + 1, _locals)
         if isinstance(expr, ast.Constant):
             return expr.value
+        if _locals and isinstance(expr, ast.Name) and expr.id in _locals:
+            return _locals[expr.id]
+        if isinstance(expr, (ast.ListComp, ast.SetComp, ast.DictComp, ast.GeneratorExp)):
+            # a comprehension over constant iterables ({a: a + b for a, b in zip('[(', '])')})
+            rows = [dict(_locals or {})]
+            for g in expr.generators:
+                if g.is_async:
+                    return Unknown('async comprehension')
+                nxt = []
+                for env in rows:
+                    it = self.eval_const(scope, g.iter, _depth + 1, env)
+                    if is_unknown(it) or not isinstance(it, (list, tuple, str, range, dict, set, frozenset)) or isinstance(it, _StringLetters):
+                        return Unknown('comprehension iterable')
+                    for item in (sorted(it, key=repr) if isinstance(it, (set, frozenset)) else it):
+                        e2 = dict(env)
+                        if isinstance(g.target, ast.Name):
+                            e2[g.target.id] = item
+                        elif isinstance(g.target, (ast.Tuple, ast.List)) and all(isinstance(t, ast.Name) for t in g.target.elts) \
+                                and isinstance(item, (tuple, list)) and len(item) == len(g.target.elts):
+                            e2.update({t.id: x for t, x in zip(g.target.elts, item)})
+                        else:
+                            return Unknown('comprehension target')
+                        keep = True
+                        for cond in g.ifs:
+                            c = self.eval_const(scope, cond, _depth + 1, e2)
+                            if is_unknown(c):
+                                return Unknown('comprehension condition')
+                            if not c:
+                                keep = False
+                                break
+                        if keep:
+                            nxt.append(e2)
+                    if len(nxt) > 5000:
+                        return Unknown('comprehension too large')
+                rows = nxt
+            try:
+                if isinstance(expr, ast.DictComp):
+                    out = {}
+                    for env in rows:
+                        k, v = self.eval_const(scope, expr.key, _depth + 1, env), self.eval_const(scope, expr.value, _depth + 1, env)
+                        if is_unknown(k) or is_unknown(v):
+                            return Unknown('comprehension element')
+                        out[k] = v
+                    return out
+                vals = [self.eval_const(scope, expr.elt, _depth + 1, env) for env in rows]
+                if any(is_unknown(v) for v in vals):
+                    return Unknown('comprehension element')
+                return set(vals) if isinstance(expr, ast.SetComp) else vals
+            except TypeError:
+                return Unknown('unhashable')
         if isinstance(expr, (ast.List, ast.Tuple, ast.Set)):
             vals = [ev(e) for e in expr.elts]
             if any(is_unknown(v) for v in vals):
@@ -602,14 +652,17 @@ class Model:
                 if isinstance(v, ast.Call) and ast.unparse(v.func).endswith('NewType') and len(expr.args) == 1:
                     return ev(expr.args[0])
             fn = ast.unparse(expr.func)
-            if fn in ('int', 'str', 'float', 'bool', 'list', 'tuple', 'len', 'chr', 'ord', 'dict', 'set', 'frozenset', 'range') and not expr.keywords:
+            if fn in ('int', 'str', 'float', 'bool', 'list', 'tuple', 'len', 'chr', 'ord', 'dict', 'set', 'frozenset', 'range', 'zip', 'enumerate',
+                      'sorted', 'reversed', 'min', 'max', 'sum', 'abs') and not expr.keywords:
                 args = [ev(a) for a in expr.args]
-                if any(is_unknown(a) for a in args):
+                if any(is_unknown(a) or isinstance(a, (ClassInfo, FunctionInfo, ModuleInfo, External, _StringLetters)) for a in args):
                     return Unknown('call arg')
                 try:
                     return {'int': int, 'str': str, 'float': float, 'bool': bool, 'list': list,
                             'tuple': tuple, 'len': len, 'chr': chr, 'ord': ord, 'dict': dict,
-                            'set': set, 'frozenset': frozenset, 'range': range}[fn](*args)
+                            'set': set, 'frozenset': frozenset, 'range': range, 'zip': lambda *a: list(zip(*a)),
+                            'enumerate': lambda *a: list(enumerate(*a)), 'sorted': sorted, 'reversed': lambda a: list(reversed(a)),
+                            'min': min, 'max': max, 'sum': sum, 'abs': abs}[fn](*args)
                 except Exception:
                     return Unknown('call')
             if fn.endswith('stringletters') and not expr.args:
